@@ -167,8 +167,11 @@ pub fn run() -> Report {
     }
     // reward shift >= 64 (height >= 13 440 000): "floored at zero"
     for cn in ["bitcoin"] {
-        for base in [13_440_000u64, 13_439_998, 1 << 32] {
+        // ... and halving counts at and beyond 2^32 (a count kept in 32 bits starts over: 0, 1, 5, 32, 33 halvings again), 2^33, 2^40
+        for base in [13_440_000u64, 13_439_998, 1 << 32, 1 << 40, (210_000u64 << 32) - 2, 210_000u64 << 32, 210_000 * ((1u64 << 32) + 1) - 1, 210_000 * ((1u64 << 32) + 5), 210_000 * ((1u64 << 32) + 32) + 9, 210_000 * ((1u64 << 32) + 33), 210_000u64 << 33, 210_000 * ((1u64 << 40) + 2), (1u64 << 62) + 1] {
             cases.push(Case { coin: cn, base, times: vec![1000, 2000, 2500], mix: 1, cb_delta: 5000, types_world: false, label: "reward shift >= 64" });
+            // the same with coinbases far above any subsidy (a phantom subsidy shows as missing fees)
+            cases.push(Case { coin: cn, base, times: vec![1000, 2000, 2500], mix: 0, cb_delta: 7 * 100_000_000, types_world: false, label: "reward shift >= 64" });
         }
     }
     for cn in ["namecoin", "dogecoin"] {
